@@ -6,80 +6,15 @@
 (* linearisation point) or one step of the harness (stamped from the same     *)
 (* counter before the step is performed), so nothing has to be inferred.      *)
 (* Limit, Conservation and StopOrder are evaluated after every event.         *)
+(* The step function is ServerSteps!Apply, the one MC_ServerSteps model-checks.   *)
 (* "Total form": an event no action explains is collected with its scenario   *)
 (* id and the rest of that scenario is skipped.                               *)
 (***************************************************************************)
-EXTENDS Naturals, FiniteSets, Sequences, TLC, Json, IOUtils, TLCExt, SequencesExt
+EXTENDS ServerSteps, Json, IOUtils, TLCExt, SequencesExt
 Rec == ndJsonDeserialize(IOEnv.TRACE)
 VARIABLES l, bad, skipping, nvalid, sv
 tvars == <<l, bad, skipping, nvalid, sv>>
 E == Rec[l]
-
-\* revoked: 0 = no, 1 = the harness is about to drop the permit, 2 = the drop has returned
-Init0(max) == [max |-> max, avail |-> max, accPc |-> "Top", accHolds |-> FALSE, pendingRet |-> 0, backlog |-> 0,
-               accepted |-> {}, live |-> {}, revoked |-> 0, loopReturned |-> FALSE, stoppedSent |-> FALSE,
-               stoppedSeen |-> FALSE, afterRevoke |-> <<>>, inflight |-> {}, written |-> <<>>, ended |-> {},
-               maxSeen |-> 0]
-Get(f, k) == IF k \in DOMAIN f THEN f[k] ELSE 0
-Inc(f, k) == IF k \in DOMAIN f THEN [f EXCEPT ![k] = @ + 1] ELSE f @@ (k :> 1)
-Ok(t) == [ok |-> TRUE, sv |-> t, why |-> <<>>]
-No(why) == [ok |-> FALSE, sv |-> sv, why |-> why]
-
-\* one event applied to the state: [ok, sv, why]
-Apply(t, e) ==
-  CASE e.ev = "ClientConnect" -> Ok([t EXCEPT !.backlog = @ + 1])
-    [] e.ev = "ClientConnectFailed" -> IF t.backlog > 0 THEN Ok([t EXCEPT !.backlog = @ - 1]) ELSE No(<<"connect failed without a connect">>)
-    [] e.ev \in {"ClientConnected", "ClientSend", "GateOpen", "ClientClose", "LateConnect", "HEnter", "RespWritten", "RespFailed", "BodyCopied", "ClientGot"} ->
-         IF e.ev = "HEnter" /\ t.revoked < 1 /\ e.b % 10 # 1 THEN Ok([t EXCEPT !.inflight = @ \cup {<<e.a, e.b>>}])   \* a handler running when the permit is revoked
-         ELSE IF e.ev = "RespWritten" THEN Ok([t EXCEPT !.written = Inc(@, e.a), !.inflight = {p \in @ : p[1] # e.a}])
-         ELSE Ok(t)
-    [] e.ev = "Quiesce" ->
-         \* nothing leaks once everything has wound down, and every handler that was running at revocation answered
-         IF t.live # {} \/ t.accepted # {} \/ t.pendingRet # 0 THEN No(<<"slots not conserved at quiescence", t.live, t.accepted, t.pendingRet>>)
-         ELSE IF t.avail + (IF t.accHolds THEN 1 ELSE 0) # t.max THEN No(<<"slots lost", t.avail, t.max>>)
-         ELSE IF {p \in t.inflight : p[1] \notin {e.aborted[i] : i \in 1..Len(e.aborted)}} # {} THEN No(<<"in-flight request got no response", t.inflight>>)
-         ELSE Ok(t)
-    [] e.ev = "RefillOk" -> IF e.a = t.max THEN Ok(t) ELSE No(<<"after the history only", e.a, "of", t.max, "connections could be serviced at once">>)
-    [] e.ev = "RevokeBegin" -> Ok([t EXCEPT !.revoked = 1])
-    [] e.ev = "RevokeDone" -> Ok([t EXCEPT !.revoked = 2])
-    [] e.ev = "StoppedReceived" -> IF t.stoppedSent THEN Ok([t EXCEPT !.stoppedSeen = TRUE]) ELSE No(<<"stop signal received but never sent">>)
-    [] e.ev = "StopTimeout" -> No(<<"no stop signal within the deadline after revocation; accept loop at", t.accPc>>)
-    [] e.ev = "LateConnectRefused" -> Ok(t)
-    [] e.ev = "LateConnectAccepted" -> No(<<"connection attempt served after the stop signal">>)
-    \* ---- accept loop ----
-    [] e.ev = "AccWait" -> IF t.accPc = "Top" /\ ~t.accHolds THEN Ok([t EXCEPT !.accPc = "Waiting"]) ELSE No(<<"AccWait at", t.accPc>>)
-    [] e.ev = "TokenTake" -> IF t.accPc = "Waiting" /\ t.avail > 0 THEN Ok([t EXCEPT !.avail = @ - 1, !.accHolds = TRUE, !.accPc = "Check"])
-                             ELSE No(<<"TokenTake with avail", t.avail, "at", t.accPc>>)
-    [] e.ev = "AccRevokedInWait" -> IF t.accPc = "Waiting" /\ t.revoked >= 1 THEN Ok([t EXCEPT !.accPc = "Done"]) ELSE No(<<"AccRevokedInWait", t.accPc, t.revoked>>)
-    [] e.ev = "AccRevokedExit" -> IF t.accPc = "Check" /\ t.revoked >= 1 THEN Ok([t EXCEPT !.accPc = "Done", !.accHolds = FALSE, !.pendingRet = @ + 1])
-                                  ELSE No(<<"AccRevokedExit", t.accPc, t.revoked>>)
-    [] e.ev = "AccAccepting" -> IF t.accPc = "Check" /\ t.accHolds THEN Ok([t EXCEPT !.accPc = "Accepting"]) ELSE No(<<"AccAccepting", t.accPc>>)
-    [] e.ev = "AccAccepted" -> IF t.accPc = "Accepting" /\ t.accHolds /\ t.backlog > 0 /\ ~t.loopReturned
-                               THEN Ok([t EXCEPT !.backlog = @ - 1, !.accepted = @ \cup {e.a}, !.accHolds = FALSE, !.accPc = "IterEnd"])
-                               ELSE No(<<"AccAccepted", t.accPc, t.accHolds, t.backlog, t.loopReturned>>)
-    [] e.ev = "AccAcceptErr" -> IF t.accPc = "Accepting" /\ t.accHolds THEN Ok([t EXCEPT !.accHolds = FALSE, !.pendingRet = @ + 1, !.accPc = "IterEnd"])
-                                ELSE No(<<"AccAcceptErr", t.accPc>>)
-    [] e.ev = "AccIterEnd" -> IF t.accPc = "IterEnd" THEN Ok([t EXCEPT !.accPc = "Top"])
-                              ELSE IF t.accPc = "Accepting" /\ t.revoked >= 1 /\ t.accHolds                    \* the permit woke the loop
-                              THEN Ok([t EXCEPT !.accHolds = FALSE, !.pendingRet = @ + 1, !.accPc = "Top"])
-                              ELSE No(<<"AccIterEnd", t.accPc, t.revoked>>)
-    [] e.ev = "AcceptLoopReturned" -> IF t.accPc = "Done" /\ t.revoked >= 1 THEN Ok([t EXCEPT !.loopReturned = TRUE]) ELSE No(<<"accept loop returned at", t.accPc, t.revoked>>)
-    [] e.ev = "StoppedSending" -> IF t.loopReturned THEN Ok([t EXCEPT !.stoppedSent = TRUE]) ELSE No(<<"stop signal before the listener was released">>)
-    \* ---- tokens and connection tasks ----
-    [] e.ev = "TokenReturn" -> IF t.pendingRet > 0 THEN Ok([t EXCEPT !.pendingRet = @ - 1, !.avail = @ + 1]) ELSE No(<<"a token was returned that nobody held">>)
-    [] e.ev = "ConnBegin" -> IF e.a \in t.accepted THEN Ok([t EXCEPT !.accepted = @ \ {e.a}, !.live = @ \cup {e.a}]) ELSE No(<<"ConnBegin of a connection that was not accepted", e.a>>)
-    [] e.ev = "ReqRead" -> IF e.a \notin t.live THEN No(<<"request read on a connection that is not live", e.a>>)
-                           ELSE IF e.a \in t.ended THEN No(<<"request read after the connection ended", e.a>>)
-                           ELSE IF t.revoked = 2 /\ Get(t.afterRevoke, e.a) >= 1 THEN No(<<"a connection served more than one further request after revocation", e.a>>)
-                           ELSE Ok(IF t.revoked = 2 THEN [t EXCEPT !.afterRevoke = Inc(@, e.a)] ELSE t)
-    [] e.ev = "ConnEnd" -> IF e.a \in t.live THEN Ok([t EXCEPT !.live = @ \ {e.a}, !.pendingRet = @ + 1, !.ended = @ \cup {e.a}]) ELSE No(<<"ConnEnd of a connection that is not live", e.a>>)
-    [] OTHER -> Ok(t)
-
-\* C12
-Limit(t) == Cardinality(t.live \cup t.accepted) <= t.max
-Conservation(t) == t.avail + Cardinality(t.live) + Cardinality(t.accepted) + t.pendingRet + (IF t.accHolds THEN 1 ELSE 0) = t.max
-\* C13
-StopOrder(t) == (t.stoppedSent => t.loopReturned) /\ (t.loopReturned => t.revoked >= 1)
 
 TInit == l = 1 /\ bad = {} /\ skipping = FALSE /\ nvalid = 0 /\ sv = Init0(0)
 TNext == /\ l <= Len(Rec) /\ l' = l + 1
@@ -89,6 +24,7 @@ TNext == /\ l <= Len(Rec) /\ l' = l + 1
                  IF ~r.ok THEN bad' = bad \cup {<<E.sid, l, <<E.ev>> \o r.why>>} /\ skipping' = TRUE /\ UNCHANGED <<nvalid, sv>>
                  ELSE IF ~Limit(r.sv) THEN bad' = bad \cup {<<E.sid, l, <<"Limit exceeded", r.sv.live, r.sv.accepted, r.sv.max>> >>} /\ skipping' = TRUE /\ UNCHANGED <<nvalid, sv>>
                  ELSE IF ~Conservation(r.sv) THEN bad' = bad \cup {<<E.sid, l, <<"Conservation broken at", E.ev, r.sv.avail, r.sv.pendingRet>> >>} /\ skipping' = TRUE /\ UNCHANGED <<nvalid, sv>>
+                 ELSE IF ~AtMostOneMore(r.sv) THEN bad' = bad \cup {<<E.sid, l, <<"a connection served more than one further request after revocation", r.sv.afterRevoke>> >>} /\ skipping' = TRUE /\ UNCHANGED <<nvalid, sv>>
                  ELSE IF ~StopOrder(r.sv) THEN bad' = bad \cup {<<E.sid, l, <<"StopOrder broken at", E.ev>> >>} /\ skipping' = TRUE /\ UNCHANGED <<nvalid, sv>>
                  ELSE /\ sv' = [r.sv EXCEPT !.maxSeen = IF Cardinality(r.sv.live) > @ THEN Cardinality(r.sv.live) ELSE @]
                       /\ nvalid' = (IF E.ev = "Quiesce" THEN nvalid + 1 ELSE nvalid) /\ UNCHANGED <<bad, skipping>>
